@@ -7,6 +7,10 @@ import traceback
 from . import common, tlc
 
 
+# which exhaustive configuration of the composition a check runs in the quick tier (the thorough tier runs the two-object and the two-marking configurations)
+SYSTEM = {"C01": None, "C05": "MC_Stix2SystemOne", "C07": None, "C08": None, "C11": None, "C12": None, "C13": "MC_Stix2SystemOne21", "C18": "MC_Stix2SystemOne"}
+
+
 def main():
     ap = argparse.ArgumentParser()
     ap.add_argument("pid")
@@ -22,10 +26,19 @@ def main():
         print("no such check %s" % a.pid, file=sys.stderr)
         return 2
     if a.replay:
+        import json
+        d = json.load(open(a.replay))
+        if d.get("stage") == "SYS_S2":
+            from .checks import system
+            return system.replay_file(d["detail"])
         return mod.replay(a.replay)
     chk = common.Check(a.pid.upper(), a.tier, a.seed, getattr(mod, "LEVEL", "model_checking"))
     try:
         mod.run(chk)
+        if a.pid.upper() in SYSTEM:
+            # the composition (spec/Stix2System.tla): deviations are attributed by clause prefix, the exhaustive configurations run in three of the checks
+            from .checks import system
+            system.stage(chk, a.pid.upper() + ":", exhaustive=SYSTEM[a.pid.upper()])
     except tlc.TlcFailure as e:
         chk.machinery(str(e))
     except Exception:
